@@ -167,6 +167,8 @@ def endpoint(repo, chk, on_write):
     wh = cls.lookup('write')
     need(wh, f'C11: {cls.ref} has no write handler')
     chk.touch(wh)
+    from .common import snapshot_view
+    wh = snapshot_view(wh)           # (`poller = self._poller` … `poller.addWriter(…)`)
     gw = wh.cfg()
     dv = wh.params[-1]
     app = [n for n in gw.nodes if n.kind == 'stmt' and any(r == buf and [src(a) for a in c.args] == [dv] for r, c in pat.method_calls(n.ast, 'append'))]
@@ -328,7 +330,12 @@ def endpoint(repo, chk, on_write):
     else:
         clr = [n for n in gl.nodes if n.kind == 'stmt' and any(r == buf for r, _c in pat.method_calls(n.ast, 'clear'))]
         skip = None
-    guard_ret = lambda e2: e2.dst.kind == 'stmt' and isinstance(e2.dst.ast, ast.Return)  # noqa: E731
+    def guard_ret(e2):
+        """the do-nothing branch of a test (`if self.closed: return`, or the missing else of `if not self.closed: …`): nothing but the return follows"""
+        if e2.src.kind != 'test':
+            return False
+        seen_, _ = Q.search([e2.dst], exc=())
+        return all(m.kind in ('join', 'exit') or (m.kind == 'stmt' and isinstance(m.ast, ast.Return)) for m in seen_)
     p = Q.escapes(gl, [gl.entry], lambda n: n in clr, avoid_edge=lambda e2: (skip(e2) if skip else False) or guard_ret(e2))
     chk.ob('d', cl.ref, '_close discards whatever is still buffered (nothing is written after the endpoint closed)', p is None and bool(clr),
            loc(cl, cl.node), path=pat.path_lines(p) if p else None, discr='close-clears-buffer')
@@ -401,45 +408,56 @@ def rule_a(chk, wr, buf, is_file):
     _ERRNO_ALIASES[en] = {src(n.targets[0]) for n in walk_no_defs(wr.node) if isinstance(n, ast.Assign) and isinstance(n.targets[0], ast.Name)
                           and src(n.value) in (f'{en}.args[0]', f'{en}.errno')}
     transient = TRANSIENT_FILE if is_file else TRANSIENT_SOCK
+    # the clause is walked once per errno class with the errno of the caught exception fixed to that value: tests on it (directly, through a local holding
+    # it, or through a flag computed from it) are then decided, everything else is followed both ways
+    import re
+    from sa import concrete
+    consts = {}
+    for w in ast.walk(wr.node):
+        if isinstance(w, ast.Name) and re.fullmatch(r'E[A-Z]{3,}|SSL_ERROR_[A-Z_]+', w.id):
+            consts[w.id] = canon(w.id)
+        elif isinstance(w, ast.Attribute) and re.fullmatch(r'E[A-Z]{3,}|SSL_ERROR_[A-Z_]+', w.attr):
+            consts['$' + src(w)] = canon(w.attr)
+
+    def esc(errno, is_target, exits, avoid_edge=None):
+        env = dict(consts)
+        env[f'${en}.args[0]'] = env[f'${en}.errno'] = errno
+        return concrete.escapes(g, h, env, is_target, exits=exits, avoid_edge=avoid_edge)
+
     for errno in sorted(set(map(canon, transient))) + list(FATAL):
-        def contradicts(e2, errno=errno):
-            if e2.src.kind != 'test':
-                return False
-            v = _errno_test(e2.src.ast, en)
-            if v is None:
-                return False
-            names, negated = v
-            member = errno in {canon(x) for x in names}
-            truth = member != negated
-            return (e2.kind == 'T') != truth
         if errno in map(canon, transient):
-            p = Q.escapes(g, [h], lambda n: n in requeue_whole, avoid_edge=contradicts, exits=('exit', 'raise'))
+            p = esc(errno, lambda n: n in requeue_whole, ('exit', 'raise'))
             chk.ob('a', wr.ref, f'errno {errno} (transient): the whole payload is put back at the front of the buffer', p is None and bool(requeue_whole),
                    loc(wr, h.ast), path=pat.path_lines(p, h) if p else None, discr=f'errno-class=TRANSIENT:{errno}')
-            sig = Q.escapes(g, [h], lambda n: False, avoid_edge=lambda e2: contradicts(e2) or e2.dst in closes or e2.dst in errors, exits=('exit',))
+            sig = esc(errno, lambda n: False, ('exit',), avoid_edge=lambda e2: e2.dst in closes or e2.dst in errors)
             chk.ob('a', wr.ref, f'errno {errno} (transient): neither an error event nor a close', sig is not None or not requeue_whole, loc(wr, h.ast),
                    discr=f'errno-class=TRANSIENT-quiet:{errno}')
         else:
-            p = Q.escapes(g, [h], lambda n: n in closes or n in errors, avoid_edge=contradicts, exits=('exit',))
+            p = esc(errno, lambda n: n in closes or n in errors, ('exit',))
             chk.ob('a', wr.ref, f'errno {errno} (fatal): signalled by an error event and/or closing the endpoint', p is None, loc(wr, h.ast),
                    path=pat.path_lines(p, h) if p else None, discr=f'errno-class=FATAL:{errno}')
-            q = Q.escapes(g, [h], lambda n: False, avoid_edge=lambda e2: contradicts(e2) or e2.dst in requeue_whole, exits=('exit', 'raise'))
+            q = esc(errno, lambda n: False, ('exit', 'raise'), avoid_edge=lambda e2: e2.dst in requeue_whole)
             chk.ob('a', wr.ref, f'errno {errno} (fatal): the payload is not put back for ever', q is not None, loc(wr, h.ast),
                    discr=f'errno-class=FATAL-no-requeue:{errno}')
-            p2 = Q.escapes(g, [h], lambda n: n in closes, avoid_edge=contradicts, exits=('exit',))
+            p2 = esc(errno, lambda n: n in closes, ('exit',))
             chk.ob('a', wr.ref, f'errno {errno} (fatal): the endpoint is closed or its output abandoned (buffer cleared), so that nothing is sent after the lost payload',
                    p2 is None and bool(closes), loc(wr, h.ast), path=pat.path_lines(p2, h) if p2 else None, discr=f'errno-class=FATAL-closes:{errno}')
     if not is_file:
         # the TLS layer says "want write" (or "want read", during a renegotiation) where a plain socket says EAGAIN: nothing was sent, the payload goes back
-        want = [e for n in g.nodes if n.kind == 'test' for e in n.succ
-                if (lambda fc: fc is not None and fc[1] in ('==', 'in') and 'SSL_ERROR_WANT_WRITE' in fc[2])(pat.compare_fact(n.ast, e.kind))]
-        okw = bool(want) and all(e.dst in requeue_whole or Q.escapes(g, [e.dst], lambda n: n in requeue_whole, exits=('exit',), exc=()) is None for e in want)
-        for e in want:
-            seen_, _ = Q.search([e.dst], exc=())
-            if any(x in seen_ or x is e.dst for x in errors):
+        tls = {'$' + src(c): True for c in calls_in(wr.node) if call_name(c) == 'isinstance' and len(c.args) == 2 and src(c.args[0]) == en
+               and 'SSL' in src(c.args[1])}
+        want = [w for w in ('SSL_ERROR_WANT_WRITE', 'SSL_ERROR_WANT_READ') if w in consts or any(k.endswith('.' + w) for k in consts)]
+        okw = bool(tls) and len(want) == 2
+        for wcode in want:
+            env = dict(consts)
+            env.update(tls)
+            env[f'${en}.args[0]'] = env[f'${en}.errno'] = wcode
+            lost = concrete.escapes(g, h, env, lambda n: n in requeue_whole, exits=('exit', 'raise'))
+            loud = concrete.escapes(g, h, env, lambda n: False, exits=(), goal=lambda n: n in errors)
+            if lost is not None or loud is not None:
                 okw = False
         chk.ob('a', wr.ref, 'a TLS write that wants to be repeated (SSLWantWrite / SSLWantRead) is transient: the whole payload is put back, no error, nothing dropped', okw,
-               loc(wr, h.ast), detail=f'{len(want)} test edge(s) recognise SSL_ERROR_WANT_WRITE', discr='tls-want-transient')
+               loc(wr, h.ast), detail=f'codes the clause names: {want}', discr='tls-want-transient')
 
 
 _ERRNO_ALIASES = {}     # exception variable -> locals holding its errno (filled per write routine)
